@@ -639,7 +639,7 @@ func run(c *hx.Ctx) error {
 	if p := os.Getenv("VERIF_C29_EXPLAIN"); p != "" { // development aid: one Go-quoted document per line
 		return explainFile(p)
 	}
-	res.Rule = "cases for the real code (run inside cmd/scriggo's tag-guarded test): (1) generated Markdown documents of 1-4 blocks from the construct list of the property (inline links and images with bare / angle / empty destinations, titles in the three quote forms, reference definitions and uses, code spans, fenced and indented code, HTML blocks, raw-text elements, comments, inline HTML, lists, block quotes, headings, escaped brackets and parentheses, nested brackets) through linkDestinationReplacer.replace with base https://example.com/base, dir docs; (2) random sources with random replacement lists (valid, overlapping, out of range) through applyReplacements; (3) a backslash / U+00A0 dictionary, its pairs and random bytes through markdownURLEscape and markdownUnescape; (4) generated lines x positions through parseDestination, parseTitle, findLabelEnd; (5) for the finding classes' precision self-test, per class 300 documents for which the class predicts a wrong rewriting, from per-class generators (classgens.go), one in three inside a document of (1); a case is non-trivial when it has a link construct / a replacement / a backslash or C2 byte; distinct by (op, input)"
+	res.Rule = "cases for the real code (run inside cmd/scriggo's tag-guarded test): (1) generated Markdown documents of 1-4 blocks from the construct list of the property (inline links and images with bare / angle / empty destinations, titles in the three quote forms, reference definitions and uses, code spans, fenced and indented code, HTML blocks, raw-text elements, comments, inline HTML, lists, block quotes, headings, escaped brackets and parentheses, nested brackets) through linkDestinationReplacer.replace with base https://example.com/base, dir docs; (2) random sources with random replacement lists (valid, overlapping, out of range) through applyReplacements; (3) a backslash / U+00A0 dictionary, its pairs and random bytes through markdownURLEscape and markdownUnescape; (4) generated lines x positions through parseDestination, parseTitle, findLabelEnd; (5) for the finding classes' precision self-test, per class 250 documents for which the class predicts a wrong rewriting, from per-class generators (classgens.go), partly inside a document of (1); a case is non-trivial when it has a link construct / a replacement / a backslash or C2 byte; distinct by (op, input)"
 
 	var cases []tcase
 	var keys []string
@@ -802,8 +802,12 @@ func run(c *hx.Ctx) error {
 	}
 
 	// the finding classes must be narrow: what a class predicts must come true on the real code
+	t0 := time.Now()
 	if err := precisionSelfTest(c, report); err != nil {
 		return err
+	}
+	if os.Getenv("VERIF_C29_DEBUG") != "" {
+		fmt.Fprintf(os.Stderr, "TIME precision self-test %v\n", time.Since(t0))
 	}
 
 	// ---- model answers
